@@ -198,7 +198,7 @@ def r83(ctx):
                 ctx.finding('R8.3', f'{P}.{fn.name}:{kind}-unguarded', ci, x,
                             f'`{short(x, 60)}` is not guarded by `{key} in {lst}`: unsubscribing an absent listener / type raises instead of being harmless',
                             where=f'{P}.{fn.name}')
-    ctx.floor('R8.3', 'guarded removals', nrm, 3)
+    ctx.floor('R8.3', 'guarded removals', nrm, 1)
     # emptied list deletes key (so has_listeners = len > 0 is right)
     rl = prog.method(P, 'remove_listener', inherited=False)
     et = rl.args.args[1].arg
